@@ -3,7 +3,12 @@ package c04
 import (
 	"strings"
 	"testing"
+
+	"verif/evid"
 )
+
+// TestC04FuzzReplay registers the fuzz check's oracle for --replay of cases recorded from fuzz crashers.
+func TestC04FuzzReplay(t *testing.T) { evid.Register(t, "fuzz", oracle) }
 
 // FuzzC04 is the native-fuzzing entry (thorough-tier supplement; the driver does not run it yet):
 //
@@ -41,7 +46,7 @@ func FuzzC04(f *testing.F) {
 		}
 		applyExclusions(&c, sh)
 		if _, err := oracle(c); err != nil {
-			t.Fatalf("case %+v\n%v", c, err)
+			evid.FuzzFail(t, "fuzz", c, err)
 		}
 	})
 }
